@@ -454,7 +454,7 @@ func TestC20(t *testing.T) {
 	for _, l := range lims {
 		switchAt[l.family+"/"+l.shape] = find(l.family, l.shape, l.lo, l.hi)
 	}
-	check(rec, "near-limit-random", scale(300, 20000), func(rt *rapid.T) {
+	check(rec, "near-limit-random", scale(300, 60000), func(rt *rapid.T) {
 		l := lims[rapid.IntRange(0, len(lims)-1).Draw(rt, "limit")]
 		s := switchAt[l.family+"/"+l.shape]
 		var n int
